@@ -200,7 +200,8 @@ def solve_sat(
             if not in_heap[var]:
                 heappush(var_heap, (-activity[var], var))
                 in_heap[var] = True
-        prop_head = len(trail)
+        # Literals that stay on the trail but were not propagated yet must still be visited
+        prop_head = min(prop_head, len(trail))
 
     def find_pure_literals():
         pos_count = [0] * (n_vars + 1)
